@@ -2,7 +2,7 @@
    In the Manager model both interfaces drive the same operations.  The C interface has only the untyped, id-based
    entry points (OAssign/ORemove with typed = false: assign by component id, default construction, then a write
    through the returned pointer; removeComponent(entity, id) without the validity guard) and components described at
-   run time by a table of optional functions (Palette.pal_info for palette numbers >= 8, flag bits 1 create, 2 copy,
+   run time by a table of optional functions (Palette.pal_info for palette numbers 8..11, flag bits 1 create, 2 copy,
    4 move, 8 move_constructor, 16 destroy, 32 default value).
    res_rel R r r' : both runs succeed with R-related results, or both fail with the same error. *)
 Require Import Coq.Lists.List Coq.NArith.NArith Coq.ZArith.ZArith Coq.Arith.Arith Coq.Bool.Bool Coq.Sorting.Permutation.
@@ -79,7 +79,7 @@ Example C18_remove_stale_differs :
 Proof. exact remove_stale_differs. Qed.
 
 (* ---- 3. components described at run time ---- *)
-Theorem C18_described_fields : forall p f, 8 <= p ->
+Theorem C18_described_fields : forall p f, 8 <= p <= 11 ->
   let i := pal_info p f in
   ci_pal i = p /\ ci_ev i = true /\ ci_hasval i = true /\
   ci_create i = (if Nat.testbit f 0 then Some (Z.of_nat (1000 + p)) else None) /\
@@ -92,11 +92,11 @@ Print Assumptions C18_described_fields.
 
 (* a full table (with or without a default value) is lifecycle-equivalent to the instrumented static type, an empty
    table to a trivially copyable static type *)
-Theorem C18_full_table_like_static : forall p, 8 <= p ->
+Theorem C18_full_table_like_static : forall p, 8 <= p <= 11 ->
   lc_equiv (pal_info p 31) (inst_info p false) /\ lc_equiv (pal_info p 63) (inst_info p false).
 Proof. exact dyn_full_like_static. Qed.
 Print Assumptions C18_full_table_like_static.
-Theorem C18_empty_table_like_trivial : forall p, 8 <= p -> lc_equiv (pal_info p 0) (trivial_info p true).
+Theorem C18_empty_table_like_trivial : forall p, 8 <= p <= 11 -> lc_equiv (pal_info p 0) (trivial_info p true).
 Proof. exact dyn_plain_like_trivial. Qed.
 Print Assumptions C18_empty_table_like_trivial.
 
